@@ -36,11 +36,208 @@ def model_attr(r):
     return ['raw', r[1] if len(r) > 1 else None]
 
 
+# --------------------------------------------------------------------------- the mapping type of the JSON objects
+#
+# DIMENSION how the document was decoded.  A JSON object does not have to arrive as a plain `dict`: `from_json(text,
+# object_pairs_hook=OrderedDict)` (extra keyword arguments go to json.loads), a document that was a defaultdict / an application's own
+# dict subclass handed to from_dict.  All of these are dicts (isinstance), hold the same keys and values in the same order, and the
+# loaders accept them; so the outcome of a load -- the value, or the error with its (class, field, offending value) -- is the one of the
+# plain-dict document.  The objects of the document are re-typed at every level, at the root only, below the root only, or one by one.
+
+class DictSub(dict):
+    """an application's own dict subclass (no behaviour of its own)"""
+
+
+def _mk_mapping(kind, items):
+    import collections
+    if kind == 'OrderedDict':
+        return collections.OrderedDict(items)
+    if kind == 'defaultdict':
+        d = collections.defaultdict(None)       # no default_factory: a missing key raises KeyError, as for a dict
+        d.update(items)
+        return d
+    return DictSub(items)
+
+
+MAPPING_KINDS = ['OrderedDict', 'OrderedDict', 'DictSub', 'defaultdict']
+MAPPING_WHERE = ['all', 'all', 'root', 'nested', 'random']
+
+
+def remap(mrng, doc, kind, where, _depth=0):
+    """`doc` with its JSON objects re-typed"""
+    if isinstance(doc, dict):
+        items = [(k, remap(mrng, v, kind, where, _depth + 1)) for k, v in doc.items()]
+        hit = (where == 'all' or (where == 'root' and _depth == 0) or (where == 'nested' and _depth > 0) or
+               (where == 'random' and mrng.random() < 0.5))
+        return _mk_mapping(kind, items) if hit else dict(items)
+    if isinstance(doc, list):
+        return [remap(mrng, v, kind, where, _depth + 1) for v in doc]
+    return doc
+
+
+def innermost_on_path(ty, path):
+    """(class, field) of the innermost dataclass field crossed on the way to `path` (containers, Optional, TypedDict / NamedTuple members
+    are looked through); None when a Union is on the way or the path leaves the type"""
+    t, best = ty, None
+    for step in path:
+        while t['k'] == 'optional':
+            t = t['a'][0]
+        k = t['k']
+        if k == 'cls':
+            ftys = dict((n, ft) for n, ft in t['ftys'])
+            if not isinstance(step, str) or step not in ftys:
+                return None
+            best = (t['info']['name'], step)
+            t = ftys[step]
+        elif k in ('list', 'set', 'frozenset', 'deque', 'vtuple'):
+            if not isinstance(step, int):
+                return None
+            t = t['a'][0]
+        elif k == 'tuple':
+            if not isinstance(step, int) or step >= len(t.get('a', [])):
+                return None
+            t = t['a'][step]
+        elif k in ('dict', 'defaultdict', 'ordereddict'):
+            t = t['a'][1]
+        elif k == 'typeddict':
+            fl = {n: ft for n, ft, _r in t['fields']}
+            if step not in fl:
+                return None
+            t = fl[step]
+        elif k == 'namedtuple':
+            if not isinstance(step, int) or step >= len(t['fields']):
+                return None
+            t = t['fields'][step][1]
+        else:
+            return None
+    return best
+
+
+def _same_obj(a, b):
+    """equal as JSON values (a NaN equals a NaN; a dict subclass equals the dict with the same pairs in the same order)"""
+    if isinstance(a, dict) and isinstance(b, dict):
+        return list(a) == list(b) and all(_same_obj(a[k], b[k]) for k in a)
+    if isinstance(a, (list, tuple)) and isinstance(b, (list, tuple)):
+        return len(a) == len(b) and all(_same_obj(x, y) for x, y in zip(a, b))
+    if isinstance(a, float) and isinstance(b, float) and a != a and b != b:
+        return True
+    try:
+        return type(a) is type(b) and bool(a == b)
+    except Exception:
+        return a is b
+
+
+def check_mapping_types(ctx, mrng, kind_, case, root, engine, bad, out, src, loader, ty=None, junk_path=None):
+    """load `bad` once more with its JSON objects re-typed (one seeded variant per case) and compare with the outcome `out` of the plain
+    document.  `loader(document)` performs the load."""
+    from dataclass_wizard.errors import ParseError, JSONWizardError
+    if not isinstance(bad, (dict, list)):
+        return
+    kind, where = mrng.choice(MAPPING_KINDS), mrng.choice(MAPPING_WHERE)
+    via = 'fromdict'
+    variant = remap(mrng, bad, kind, where)
+    text = None
+    if kind == 'OrderedDict' and where == 'all' and isinstance(bad, dict) and hasattr(root, 'from_json') and mrng.random() < 0.5:
+        try:
+            text = json.dumps(bad)
+        except (TypeError, ValueError):
+            text = None
+    if text is not None:
+        import collections
+        via = 'from_json(object_pairs_hook=OrderedDict)'
+        out2 = load_outcome(lambda: root.from_json(text, object_pairs_hook=collections.OrderedDict))
+    else:
+        out2 = load_outcome(lambda: loader(variant))
+    ctx.count(f'mapping-type:{kind}:{where}')
+    mcase = dict(case, mapping_type=kind, mapping_where=where, mapping_via=via)
+    what = f'JSON objects decoded as {kind} ({where}; {via})'
+    kind_ += ':mapping-type'
+    if out2[0] == 'ok':
+        # (what a successful load returns is not this property's business: an Any / str / Union field may legitimately show the mapping type)
+        return
+    e2 = out2[1]
+    a2 = attribution(e2)
+    plain = f'{type(out[1]).__name__}: {str(out[1])[:160]}' if out[0] == 'err' else 'loads'
+    if isinstance(e2, JSONWizardError):
+        try:
+            assert isinstance(str(e2), str)
+        except BaseException as ee:
+            ctx.fail(kind_, mcase, f'{what}: str({type(e2).__name__}) raised {type(ee).__name__}: {ee}', detail=src)
+            return
+    elif engine == 'v1':
+        ctx.fail(kind_, mcase, f'{what}: v1 load raised a bare {type(e2).__name__}: {str(e2)[:200]} (plain-dict document: {plain})', detail=src)
+        return
+    if not isinstance(e2, ParseError):
+        if engine == 'v1' and (out[0] == 'ok' or attribution(out[1]) != a2):
+            ctx.fail(kind_, mcase, f'{what}: the load raises {a2!r}; plain-dict document: {plain}', detail=src)
+        return          # default engine: only what a ParseError names is part of the property
+    # ---- a ParseError: it has to name the innermost class, the field holding the offending value, and the value
+    named = (e2.class_name, e2.field_name)
+    def retyped_spots():
+        """where the value the error carries is one of the re-typed objects of the document (the only values that differ from the
+        plain-dict document), with the innermost (class, field) there"""
+        d_ = variant if text is None else bad
+        sp = [p_ for p_ in positions(d_) if _is_spot(_at(d_, p_), e2.obj, text is None)]
+        return sp, [innermost_on_path(ty, p_) if ty is not None else None for p_ in sp]
+
+    if out[0] == 'err' and isinstance(out[1], ParseError):
+        # the plain-dict load names its (class, field, value) -- judged by the ordinary oracle and the Lean model: the same is demanded here
+        e1 = out[1]
+        if attribution(e1) == a2 and _same_obj(getattr(e1, 'obj', None), getattr(e2, 'obj', None)):
+            return
+        # ... unless a re-typed object itself is what could not be converted (a Union member matched by exact type, say), met before the
+        # value that stops the plain-dict load -- it then is not an object that merely contains that value
+        spots, wants = retyped_spots()
+        if any(w == named and not (junk_path and tuple(junk_path[:len(p_)]) == tuple(p_)) for p_, w in zip(spots, wants)):
+            ctx.count('mapping-type:retyped-object-rejected')
+            return
+        ctx.fail(kind_, mcase, f'{what}: ParseError names {named!r} with value {e2.obj!r}; for the plain-dict document it names '
+                 f'({e1.class_name!r}, {e1.field_name!r}) with value {e1.obj!r}'[:800], detail=src)
+        return
+    if ty is None:
+        ctx.count('mapping-type:unjudged')
+        return
+    if out[0] == 'err':
+        # the plain-dict load let a bare error escape (default engine): the offending value is the junk value
+        if not junk_path:
+            ctx.count('mapping-type:unjudged')
+            return
+        spots, wants = retyped_spots()
+        if any(w == named and tuple(junk_path[:len(p_)]) != tuple(p_) for p_, w in zip(spots, wants)):
+            ctx.count('mapping-type:retyped-object-rejected')       # (as above: a re-typed object met before the junk value)
+            return
+        want = innermost_on_path(ty, junk_path)
+        if want is None:
+            ctx.count('mapping-type:unjudged')
+        elif named != want or not any(_same_obj(e2.obj, _at(bad, junk_path[:k_])) for k_ in range(1, len(junk_path) + 1)
+                                      if innermost_on_path(ty, junk_path[:k_]) == want):
+            # (the value: the junk itself, or the value of the field / container element it sits in)
+            ctx.fail(kind_, mcase, f'{what}: ParseError names {named!r} with value {e2.obj!r}; the value that cannot be converted is '
+                     f'{_at(bad, junk_path)!r} at {junk_path!r}, innermost (class, field) on the way {want!r} (plain-dict document: {plain})'[:800], detail=src)
+        return
+    # the plain-dict document loads: the only values that can offend are the re-typed objects themselves
+    spots, wants = retyped_spots()
+    if not spots or named not in wants:
+        if spots and all(w is None for w in wants):
+            ctx.count('mapping-type:unjudged')
+            return
+        ctx.fail(kind_, mcase, f'{what}: the plain-dict document loads; this load raises a ParseError naming {named!r} with value {e2.obj!r}, '
+                 f'which is ' + (f'found at {spots[:3]!r} of the document, where the innermost (class, field) is {wants[:3]!r}' if spots else
+                                 'no object of the document')[:800], detail=src)
+
+
+def _is_spot(v, obj, by_identity):
+    if by_identity:
+        return v is obj
+    return isinstance(v, dict) and isinstance(obj, dict) and _same_obj(v, obj)
+
+
 def run(ctx: C.Ctx):
     v1streams.run_streams(ctx, run_default, run_v1)
 
 
 def run_default(ctx: C.Ctx):
+    import random
     from dataclass_wizard import fromdict
     from dataclass_wizard.errors import JSONWizardError, ParseError
     rng = ctx.rng
@@ -125,6 +322,9 @@ def run_default(ctx: C.Ctx):
             out = load_outcome(lambda: fromdict(built.root, copy.deepcopy(bad)))
             ctx.seen('err:' + engine, case, nontrivial=(out[0] == 'err'))
             src = dict(src=built.source)
+            # ---- the same document with its JSON objects decoded as another mapping type (own generator)
+            check_mapping_types(ctx, random.Random(f'{ctx.prop_id}:{ctx.seed}:mapping-type:{i}'), 'err:' + engine, case, built.root, engine, bad, out,
+                                src, lambda dd: fromdict(built.root, dd), ty=ty, junk_path=junk_path)
             if out[0] == 'err':
                 e = out[1]
                 ctx.count('raised:' + type(e).__name__)
@@ -525,6 +725,7 @@ def _all_classes(ty, out=None):
 
 
 def run_v1_features(ctx: C.Ctx):
+    import random
     from dataclass_wizard import fromdict
     from dataclass_wizard.errors import JSONWizardError, ParseError
     from harness.props.c09 import gen_c09_cls
@@ -593,6 +794,8 @@ def run_v1_features(ctx: C.Ctx):
             out = load_outcome(lambda: fromdict(built.root, copy.deepcopy(bad)))
             ctx.seen('err:v1:features', case, nontrivial=(out[0] == 'err'))
             src = dict(src=built.source)
+            check_mapping_types(ctx, random.Random(f'{ctx.prop_id}:{ctx.seed}:v1-features:mapping-type:{j}'), 'err:v1:features', case, built.root, 'v1',
+                                bad, out, src, lambda dd: fromdict(built.root, dd), ty=ty)
             if out[0] == 'err':
                 e = out[1]
                 ctx.count('raised:v1:features:' + type(e).__name__)
